@@ -5,6 +5,7 @@
      case <id> mode=encode mesh=poly|tet|hex topo=poly|tet|hex pending=0|1 accepts=<k>|inf
      nv / E / F / C / POS / W lines (the harness's observed block, properties in writer order)
                            -> "== id" / "wresult=..." / "detect=<topo>" / "wf=0|1" / "bytes <hex>" /
+                              "small=0|1" (every element of encode m is a byte) /
                               "model_rt=ok|<what>" (decode_impl (encode m) = m ?) / "spec_rt=ok|<what>" (decode_spec (encode m) = m ?)
    Hand-written glue only: parsing, int <-> Z conversion, printing. *)
 open Ovmb_model
@@ -161,6 +162,8 @@ let run_encode (c : case) =
   pr "detect=%s\n" (topo_name (detect_topo (z_of_int (topo_code c.mesh)) m));
   pr "wf=%d\n" (if wf_fileb dim m then 1 else 0);
   pr "bytes %s\n" (hex_or_dash (ibytes bytes));
+  (* the hypothesis `small (encode m)` of C18_prefix, evaluated: every element a byte (length < 2^62 is vacuous here) *)
+  pr "small=%d\n" (if Stdlib.List.for_all (fun b -> b >= 0 && b < 256) (ibytes full) then 1 else 0);
   if c.pending = 0 then begin
     (* the supported (unknown-type properties are not written) part of m, for the model-side round trips *)
     let m' = { m with m_props = Stdlib.List.filter (fun p -> codec_of p.p_tname <> None) m.m_props } in
@@ -169,6 +172,8 @@ let run_encode (c : case) =
      | ROk r -> pr "model_rt=%s\n" (if canon r = canon m' then "ok" else "differs")
      | RErr (r, s) -> pr "model_rt=%s/%s\n" (result_name r) (state_name s)
      | RUB w -> pr "model_rt=UB-%s\n" (ub_name w));
+    (* decode_spec keeps its tables as association lists (quadratic): evaluated on files up to 20 kB only *)
+    if Stdlib.List.length full > 20000 then pr "spec_rt=skipped\n" else
     (match decode_spec dim full with
      | Some r -> pr "spec_rt=%s\n" (if canon r = canon m' then "ok" else "differs")
      | None -> pr "spec_rt=none\n")
